@@ -462,7 +462,16 @@ func ruleL17(p *Prog, r *Report) {
 				return
 			}
 			if !strings.Contains(f.Name(), "FromBatchData") {
-				return
+				// ... or a private helper that only the batch builders call
+				only := f.Object() != nil && !f.Object().Exported() && len(p.CallersOf(f)) > 0
+				for _, cs := range p.CallersOf(f) {
+					if !strings.Contains(TopLevel(cs.Caller).Name(), "FromBatchData") {
+						only = false
+					}
+				}
+				if !only {
+					return
+				}
 			}
 			n++
 			recv := c.Common().Value
